@@ -32,7 +32,7 @@ for d in dirs:
             lines = [l for l in rr.stdout.splitlines() if not l.startswith('    ') and (' violated [' in l or ' undecided [' in l)]
             checks[p] = {'exit': rr.returncode, 'reports': [l[:600] for l in lines[:4]]}
     finally:
-        subprocess.run(['git', 'checkout', '--', '.'], cwd=REPO)
+        subprocess.run('git checkout -q -- . && git clean -fdq', cwd=REPO, shell=True)
     caught = any(v['exit'] == 1 for v in checks.values())
     meta['checks_against_patched_repo'] = checks
     meta['caught_by_checks'] = caught
